@@ -7,8 +7,7 @@ CONSTANTS
   Sanitizer = "intended"
   RawDeadlineLog = FALSE
   RawSites = {}
-  ConnectFailLog = "none"
+  ConnectFailLog = "sanitised"
   IngestPrintsRegistrant = {}
-VIEW view
-INVARIANTS TypeOK NoTaintAtSink NeverRaw SentinelsStable ConnectFailSilent
+INVARIANT Emitted
 CHECK_DEADLOCK FALSE
